@@ -26,7 +26,12 @@ RULE = ("kinds: exh = every (storage state x w_stb x w_data x set/clear) pair of
         "Shapes: unsigned, signed, lib.enum Enum/Flag (unsigned or signed underlying shape); init in range, out of "
         "range, negative or omitted.  Non-trivial: width >= 1 and the storage changed value >= 2 times (RW1C/RW1S: "
         "also >= 1 cycle where one bit is set and cleared at once); R/W: both strobe values and >= 2 distinct data "
-        "values passed; reserved: strobes asserted.")
+        "values passed; reserved: strobes asserted.  Mid-run synchronous resets: about 30 % of the RW/RW1C/RW1S cases "
+        "of width >= 1 assert the sync reset in 1-3 cycles (ResetInserter around the real action); three quarters of "
+        "them are prepared: the cycle before forces the storage to a value other than init, and in the reset cycle the "
+        "same write / set / clear is held (reset must win, and the held write lands one cycle later) or the field is "
+        "left alone (the stored value must still go back to init).  R/W/reserved and width-0 fields have no register: "
+        "no resets there.")
 
 
 def mask(w):
@@ -134,8 +139,55 @@ def gen_exh(rnd, kind, w, reps):
     return {"engine": "action", "kind": "exh", "cfg": cfg, "stim": stim}
 
 
+def force_row(rnd, kind, w, v):
+    """A cycle after which the storage holds v whatever it held before."""
+    r = rand_row(rnd, w)
+    if kind == "RW":
+        r[1], r[2] = 1, v
+    elif kind == "RW1C":
+        r[1], r[2], r[4] = 1, mask(w), v
+    else:
+        r[1], r[2], r[5] = 1, v, mask(w)
+    return r
+
+
+def add_resets(rnd, case):
+    """Mid-run synchronous resets for ~30 % of the cases that have a register at all (storage kinds, width >= 1).
+    Called last, so the stimulus of every case is what it was without this feature, except around the resets."""
+    cfg = case["cfg"]; kind = cfg["kind"]; w = cfg["shape"]["w"]; stim = case["stim"]
+    if kind not in STORAGE or w < 1 or len(stim) <= 20 or rnd.random() >= 0.3:
+        return case
+    rs = sorted(rnd.sample(range(3, len(stim) - 3), rnd.choice([1, 1, 2, 3])))
+    case["resets"] = rs
+    if case["kind"] == "exh":
+        return case          # keep the (preparation, pair) structure: the reset just lands somewhere in it
+    init = init_pattern(cfg)
+    for r in rs:
+        u = rnd.random()
+        if u >= 0.75:
+            continue         # wherever the random traffic happens to be
+        v = init ^ (rnd.randrange(1, 1 << w))          # a pattern that is not the init pattern
+        if (r - 1) not in rs:
+            stim[r - 1] = force_row(rnd, kind, w, v)   # storage = v when the reset arrives
+        if u < 0.45:
+            # the write (set / write-one) is held through the reset: the reset wins in cycle r ...
+            stim[r] = list(stim[r - 1]) if (r - 1) not in rs else force_row(rnd, kind, w, v)
+            if rnd.random() < 0.6 and (r + 1) not in rs:
+                stim[r + 1] = list(stim[r])            # ... and the held write lands right after it
+        else:
+            # nothing touches the field in the reset cycle: only the reset can bring it back to init
+            q = rand_row(rnd, w)
+            q[1] = 0; q[4] = 0; q[5] = 0
+            stim[r] = q
+    return case
+
+
 def gen_case(seed, tier, idx):
     rnd = mkrnd(seed, "action", idx)
+    return add_resets(rnd, gen_case0(rnd, tier, idx))
+
+
+def gen_case0(rnd, tier, idx):
     if idx < N_EXH:
         return gen_exh(rnd, STORAGE[idx % 3], idx // 3, 8 if tier == "quick" else 24)
     if idx < N_EXH + N_SHORT:
@@ -161,6 +213,41 @@ def to_model(case):
     cfg = case["cfg"]
     init = cfg["init"] if cfg["init"] is not None else 0
     return [[KCODE[cfg["kind"]], cfg["shape"]["w"], init], case["stim"]]
+
+
+def _segments(case):
+    """[(first, last)] cycle ranges; a segment ends with the cycle in which the reset is asserted"""
+    rs = sorted(set(r for r in case.get("resets", []) if 0 <= r < len(case["stim"]) - 1))
+    out, a = [], 0
+    for r in rs:
+        out.append((a, r)); a = r + 1
+    out.append((a, len(case["stim"]) - 1))
+    return out
+
+
+def reset_cycles(case):
+    """Cycles in which the reset is asserted and that have a successor in the trace."""
+    return [b for (a, b) in _segments(case)[:-1]] if case["stim"] else []
+
+
+def model_cases(case):
+    """A mid-run synchronous reset starts the model again from its initial state (storage = init): one model run
+    per segment, same configuration."""
+    head = to_model(case)[0]
+    if not case["stim"]:
+        return [to_model(case)]
+    return [[head, case["stim"][a:b + 1]] for (a, b) in _segments(case)]
+
+
+def model_join(case, results):
+    """The observation is the list of rows: segments are concatenated.  A segment the model refused to decode
+    (not a list of rows) is passed on as it is, so that it shows as a mismatch."""
+    rows = []
+    for r in results:
+        if not isinstance(r, list) or any(not isinstance(x, list) for x in r):
+            return r
+        rows += r
+    return rows
 
 
 def from_model(res):
@@ -217,12 +304,14 @@ def run_impl(case):
     for nm, col in (("data", 1), ("r_stb", 2), ("w_stb", 3), ("w_data", 4)):
         if nm in members:
             outs.append((getattr(dut, nm), col))
-    frag = Fragment.get(dut, None)
+    rst = reset_cycles(case)
+    # elaborated once: with resets it is sim.simulate that elaborates (the ResetInserter-wrapped design)
+    frag = Fragment.get(dut, None) if (cfg["kind"] in RESERVED or not rst) else None
     nstmt = 0
     if cfg["kind"] in RESERVED:
         nstmt = sum(len(v) for v in frag.statements.values()) + len(frag.subfragments)
     stim = [[row[c] for (_, c) in ins] for row in case["stim"]]
-    raw = S.simulate(dut, [s for s, _ in ins], [s for s, _ in outs], stim, frag=frag)
+    raw = S.simulate(dut, [s for s, _ in ins], [s for s, _ in outs], stim, frag=frag, reset_at=rst)
     rows = []
     for r in raw:
         o = [0] * 5
@@ -278,6 +367,7 @@ def oracle(case, obs):
         out.append(("C12", 0, "observation length differs from stimulus length"))
         return out
     exp = init_pattern(cfg)
+    resets = set(reset_cycles(case))
     for t, (row, o) in enumerate(zip(case["stim"], rows)):
         rs, ws, wd, rd, st, cl = row
         prd, data, orstb, owstb, owd = o
@@ -298,12 +388,14 @@ def oracle(case, obs):
             if data != prd:
                 out.append(("C12", t, f"{kind}: data output {data:#x} differs from what a bus read returns {prd:#x}"))
             if prd != exp:
-                why = "initial value" if t == 0 else f"previous value {prev:#x} under inputs w_stb={case['stim'][t-1][1]} w_data={case['stim'][t-1][2]:#x} set={case['stim'][t-1][4]:#x} clear={case['stim'][t-1][5]:#x}"
+                why = "initial value" if t == 0 else "initial value again: the sync reset was asserted in the previous cycle" if (t - 1) in resets else f"previous value {prev:#x} under inputs w_stb={case['stim'][t-1][1]} w_data={case['stim'][t-1][2]:#x} set={case['stim'][t-1][4]:#x} clear={case['stim'][t-1][5]:#x}"
                 out.append(("C12", t, f"{kind} width {w}: storage reads {prd:#x}, the documented rule gives {exp:#x} ({why})"))
             if orstb or owstb or owd:
                 out.append(("C12", t, f"{kind}: activity on a member it does not have"))
             prev = prd
-            exp = expected_next(kind, w, prd, row)   # resynchronise on the observed value
+            # resynchronise on the observed value; a synchronous reset makes "holds its initial value until
+            # written" apply afresh, whatever is written / set / cleared in the reset cycle itself
+            exp = init_pattern(cfg) if t in resets else expected_next(kind, w, prd, row)
         if len(out) > 20:
             break
     return out
@@ -313,7 +405,8 @@ def oracle(case, obs):
 
 def nontrivial(case, obs):
     """width >= 1 and: storage kinds — value changed >= 2 times (RW1C/RW1S: and >= 1 set/clear tie on a bit);
-    R/W — both strobe values and >= 2 distinct data values; reserved — a strobe was asserted."""
+    R/W — both strobe values and >= 2 distinct data values; reserved — a strobe was asserted.
+    Changes and ties in a cycle in which the reset is asserted do not count."""
     cfg = case["cfg"]; kind = cfg["kind"]; w = cfg["shape"]["w"]
     rows = obs[0]
     if w < 1 or not rows:
@@ -324,13 +417,14 @@ def nontrivial(case, obs):
         return len({r[0] for r in case["stim"]}) == 2 and len({o[0] for o in rows}) >= 2
     if kind == "W":
         return len({r[1] for r in case["stim"]}) == 2 and len({o[4] for o in rows}) >= 2
-    changes = sum(1 for a, b in zip(rows, rows[1:]) if a[0] != b[0])
+    resets = set(reset_cycles(case))
+    changes = sum(1 for t, (a, b) in enumerate(zip(rows, rows[1:])) if a[0] != b[0] and t not in resets)
     if changes < 2:
         return False
     if kind == "RW":
         return True
     aux = 4 if kind == "RW1C" else 5
-    return any(r[1] and (r[2] & r[aux]) for r in case["stim"])
+    return any(r[1] and (r[2] & r[aux]) for t, r in enumerate(case["stim"]) if t not in resets)
 
 
 def stats(case, obs):
@@ -352,16 +446,31 @@ def stats(case, obs):
         aux = {"RW": None, "RW1C": 4, "RW1S": 5}[kind]
         if aux is not None:
             st["cycles.set_clear_tie"] = sum(1 for r in case["stim"] if r[1] and (r[2] & r[aux]))
-        st["storage_changes"] = sum(1 for a, b in zip(rows, rows[1:]) if a[0] != b[0])
+        resets = set(reset_cycles(case))
+        st["storage_changes"] = sum(1 for t, (a, b) in enumerate(zip(rows, rows[1:])) if a[0] != b[0] and t not in resets)
+        if resets:
+            ip = init_pattern(cfg)
+            st["cases.with_resets"] = 1
+            st["resets"] = len(resets)
+            st["resets.storage_not_init"] = sum(1 for t in resets if rows[t][0] != ip)
+            st["resets.rule_alone_would_not_give_init"] = sum(
+                1 for t in resets if expected_next(kind, w, rows[t][0], case["stim"][t]) != ip)
+            st["resets.write_or_set_in_reset_cycle"] = sum(
+                1 for t in resets if case["stim"][t][1] or (aux == 4 and case["stim"][t][4] & mask(w)))
+            st["resets.held_write_lands_next_cycle"] = sum(
+                1 for t in resets if t + 2 < len(rows) and (t + 1) not in resets
+                and case["stim"][t + 1] == case["stim"][t] and rows[t + 2][0] != ip)
         if w <= 3:
             hits = {}
-            for r, o in zip(case["stim"], rows):
+            for t, (r, o) in enumerate(zip(case["stim"], rows)):
+                if t in resets:
+                    continue          # the rule does not govern the step out of a reset cycle
                 k = (o[0], r[1], r[2], r[aux] if aux is not None else 0)
                 hits[k] = hits.get(k, 0) + 1
             total = (1 << w) * 2 * (1 << w) * ((1 << w) if aux is not None else 1)
             lo = min(hits.values()) if len(hits) == total else 0
             st[f"cover.{kind}.w{w}.all_{total}_pairs_hit_at_least"] = lo
-            st[f"cover.{kind}.w{w}.pair_observations"] = len(rows)
+            st[f"cover.{kind}.w{w}.pair_observations"] = len(rows) - len(resets)
     return st
 
 
@@ -379,7 +488,8 @@ def summarize(cases, obs):
 def describe(case):
     cfg = case["cfg"]
     return {"engine": "action", "kind": case["kind"], "action": cfg["kind"], "shape": cfg["shape"],
-            "init": cfg["init"], "cycles": len(case["stim"]), "first_cycles": case["stim"][:3]}
+            "init": cfg["init"], "cycles": len(case["stim"]), "resets": case.get("resets", []),
+            "first_cycles": case["stim"][:3]}
 
 
 def shrink(case, fails):
@@ -397,10 +507,16 @@ def shrink(case, fails):
         else:
             lo = mid + 1
     best = dict(case); best["stim"] = case["stim"][:hi]
-    # drop the history: keep only the last k cycles if that still fails
+    # resets that the prefix no longer contains (or that fall on its last cycle) have no effect: drop them
+    if "resets" in best:
+        best["resets"] = [r for r in best["resets"] if r < hi - 1]
+    # drop the history: keep only the last k cycles if that still fails (reset cycles move with them)
     for k in (2, 3, 4, 8):
         if k < len(best["stim"]):
+            off = len(best["stim"]) - k
             c = dict(best); c["stim"] = best["stim"][-k:]
+            if "resets" in best:
+                c["resets"] = [r - off for r in best["resets"] if r >= off]
             if fails(c):
                 return c
     return best
